@@ -24,6 +24,7 @@ func VerifH08aFailedLoadsThenValid() {
 	instances = nil
 	shutdownCallbacksOnce = sync.Once{}
 	Quiet = true
+	zzTwoKeys = false
 
 	faults := []string{"parse", "setup", "startup", "listen", "listenpacket"}
 	nfail := verifrt.IntRange("failed-attempts", 0, 2+verifrt.Tier())
